@@ -18,6 +18,10 @@ pub enum NameSel {
     /// a valid name with one edit: (hs idx, suite idx, position, kind, char)
     Edited(u16, u8, u16, u8, u8),
     Raw(String),
+    /// a NoiseParams value assembled by hand through the public constructor and public fields:
+    /// (pattern index, modifier list where 255 = fallback and any other value v = psk(v), repeats
+    /// allowed, suite index, name string)
+    Hand(u8, Vec<u8>, u8, String),
 }
 
 #[derive(Clone, Debug, Serialize, Deserialize, PartialEq)]
@@ -125,7 +129,23 @@ pub fn name_string(sel: &NameSel) -> String {
             edit_string(&base, *pos as usize, *kind, *ch)
         },
         NameSel::Raw(s) => s.clone(),
+        NameSel::Hand(_, _, _, n) => n.clone(),
     }
+}
+
+/// NoiseParams built without the parser (public API: NoiseParams::new + public fields).
+pub fn hand_params(p: u8, mods: &[u8], suite: u8, name: &str) -> snow::params::NoiseParams {
+    use snow::params::*;
+    let suites = all_suites();
+    let s = suites[suite as usize % suites.len()];
+    let pattern = SUPPORTED_HANDSHAKE_PATTERNS[p as usize % SUPPORTED_HANDSHAKE_PATTERNS.len()];
+    let list: Vec<HandshakeModifier> = mods.iter().map(|m| if *m == 255 { HandshakeModifier::Fallback } else { HandshakeModifier::Psk(*m) }).collect();
+    let hc = HandshakeChoice { pattern, modifiers: HandshakeModifierList { list } };
+    #[cfg(not(feature = "hfs"))]
+    let np = NoiseParams::new(name.to_string(), BaseChoice::Noise, hc, snow_dh(s.dh), snow_cipher(s.cipher), snow_hash(s.hash));
+    #[cfg(feature = "hfs")]
+    let np = NoiseParams::new(name.to_string(), BaseChoice::Noise, hc, snow_dh(s.dh), None, snow_cipher(s.cipher), snow_hash(s.hash));
+    np
 }
 
 pub const EDIT_ALPHABET: &[char] =
@@ -278,7 +298,10 @@ pub fn execute(script: &Script) -> Result<Stats, Fail> {
     let mut st = Stats::default();
     let name = name_string(&script.setup.name);
     st.calls += 1;
-    let parsed = call("NoiseParams::from_str", || name.parse::<snow::params::NoiseParams>())?;
+    let parsed = match &script.setup.name {
+        NameSel::Hand(p, mods, suite, n) => Ok(call("NoiseParams::new", || hand_params(*p, mods, *suite, n))?),
+        _ => call("NoiseParams::from_str", || name.parse::<snow::params::NoiseParams>())?,
+    };
     let Ok(params) = parsed else {
         return Ok(st);
     };
@@ -632,6 +655,7 @@ fn name_sel() -> impl Strategy<Value = NameSel> {
         12 => (any::<u16>(), 0u8..24).prop_map(|(h, s)| NameSel::Valid(h, s)),
         2 => (any::<u16>(), 0u8..24, any::<u16>(), 0u8..5, any::<u8>()).prop_map(|(h, s, p, k, c)| NameSel::Edited(h, s, p, k, c)),
         1 => "\\PC{0,40}".prop_map(NameSel::Raw),
+        2 => (0u8..38, prop::collection::vec(prop_oneof![6 => 0u8..5, 1 => any::<u8>(), 1 => Just(255u8)], 0..14), 0u8..24, "[ -~]{0,70}").prop_map(|(p, m, s, n)| NameSel::Hand(p, m, s, n)),
         1 => "Noise_[NXKI1]{1,4}(psk[0-9]{1,3}|fallback|hfs|\\+){0,3}_(25519|448|P256)_(ChaChaPoly|AESGCM|XChaChaPoly)_(SHA256|SHA512|BLAKE2s|BLAKE2b)".prop_map(NameSel::Raw),
     ]
 }
@@ -652,6 +676,16 @@ pub fn script_strategy(max_ops: usize) -> impl Strategy<Value = Script> {
                     }
                     if !b.psks.contains(&n) && seed % 7 != 0 {
                         b.psks.push(n);
+                    }
+                }
+            }
+            if let NameSel::Hand(_, mods, _, _) = &name {
+                for n in mods.iter().filter(|m| **m < 10) {
+                    if !a.psks.contains(n) {
+                        a.psks.push(*n);
+                    }
+                    if !b.psks.contains(n) {
+                        b.psks.push(*n);
                     }
                 }
             }
@@ -762,6 +796,15 @@ pub fn decode(data: &[u8]) -> Script {
             NameSel::Raw(String::from_utf8_lossy(&raw).to_string())
         },
         1 | 2 => NameSel::Edited(b.u16(), b.u8() % 24, b.u16(), b.u8() % 5, b.u8()),
+        3 => {
+            let p = b.u8() % 38;
+            let k = b.u8() as usize % 14;
+            let mods: Vec<u8> = (0..k).map(|_| { let v = b.u8(); if v < 200 { v % 5 } else { v } }).collect();
+            let suite = b.u8() % 24;
+            let n = b.u8() as usize % 48;
+            let raw: Vec<u8> = (0..n).map(|_| 0x20 + b.u8() % 0x5f).collect();
+            NameSel::Hand(p, mods, suite, String::from_utf8_lossy(&raw).to_string())
+        },
         _ => NameSel::Valid(b.u16(), b.u8() % 24),
     };
     let mut a = dec_side(&mut b, true);
